@@ -387,23 +387,68 @@ theorem old_tag_unit_crashes :
 
 /-! ## Lint over time is a function of the text and of the CURRENT tag / command set -/
 
-/-- the cache of `create_analysis_input` is empty, or holds the definition `fetch_uod_info` answers; it is empty while
-    a `UodInfoMsg` is still to come, and after a fresh registration there is no definition either -/
+/-- the cache of `create_analysis_input` is empty or holds the definition `fetch_uod_info` answers -/
+def CacheOk (s : Sess) : Prop := s.cached = none ∨ s.cached = s.defn
+
+/-- **No hidden state** (code with fixes/C19-uodinfo-clears-analysis-cache.diff).  For EVERY history of registrations
+    (with the engine's data gone or kept), definition updates and lints — by any number of editor sessions, with any
+    document versions, in any order, edits being lints of another text — each lint returns exactly
+    `lintPure (current definition) (text of that call)`: what an editor is shown never depends on earlier lints, on other
+    sessions, on document versions or on earlier tag / command sets.  No protocol hypothesis.  (An implementation that
+    keeps results across a change of the definition, or per document version, disagrees with `sessRun`.) -/
+theorem lint_history_is_pure (ops : List SessOp) (s : Sess) (hs : CacheOk s) :
+    sessRun true s ops = pureRun s.defn ops := by
+  induction ops generalizing s with
+  | nil => rfl
+  | cons op ops ih =>
+    cases op with
+    | register fresh =>
+      simp only [sessRun, sessStep, pureRun]
+      exact ih ⟨if fresh then none else s.defn, none⟩ (Or.inl rfl)
+    | uodInfo E =>
+      simp only [sessRun, sessStep, pureRun]
+      exact ih ⟨some E, none⟩ (Or.inl rfl)
+    | lint xs =>
+      simp only [sessRun, sessStep, pureRun]
+      cases hcached : s.cached with
+      | some E =>
+        have hd : s.defn = some E := by
+          rcases hs with h | h
+          · rw [h] at hcached; cases hcached
+          · rw [← h]; exact hcached
+        simp only [hd, lintPure]
+        have := ih s hs
+        rw [hd] at this
+        rw [this]
+      | none =>
+        cases hd : s.defn with
+        | none =>
+          simp only [lintPure]
+          have := ih s hs
+          rw [hd] at this
+          rw [this]
+        | some E =>
+          simp only [lintPure]
+          rw [ih ⟨some E, some E⟩ (Or.inr rfl)]
+
+/-- From the start (no engine registered yet) every history is pure. -/
+theorem lint_history_from_start (ops : List SessOp) : sessRun true ⟨none, none⟩ ops = pureRun none ops :=
+  lint_history_is_pure ops ⟨none, none⟩ (Or.inl rfl)
+
+/-! #### the code before the repair -/
+
+/-- invariant of the unrepaired code along protocol-conforming histories: the cache is empty while a `UodInfoMsg` is
+    still to come, and after a fresh registration there is no definition either -/
 def SessOk (ph : Phase) (s : Sess) : Prop :=
   match ph with
-  | .ready => s.cached = none ∨ s.cached = s.defn
+  | .ready => CacheOk s
   | .awaitFresh => s.defn = none ∧ s.cached = none
   | .awaitKept => s.cached = none
 
-/-- **No hidden state.**  For every history of registrations (with fresh or kept engine data), definition updates and
-    lints — by any number of editor sessions, with any document versions — that follows the message protocol, each lint
-    returns exactly `lintPure (current definition) (text of that call)`: what an editor is shown never depends on
-    earlier lints, on other sessions, on document versions or on earlier tag / command sets.  (An implementation that
-    keeps results across a change of the definition, or per document version, disagrees with `sessRun`.)
-    Note: a lint between a data-keeping re-registration and its `UodInfoMsg` is excluded by `Conforms`; the code as it
-    is would cache the outdated definition there and keep it after the `UodInfoMsg`. -/
-theorem lint_history_is_pure (ops : List SessOp) (ph : Phase) (s : Sess) (hc : Conforms ph ops) (hs : SessOk ph s) :
-    sessRun s ops = pureRun s.defn ops := by
+/-- Before the repair the same held only for histories that follow the message protocol and have no lint between a
+    data-keeping re-registration and its `UodInfoMsg` (`Conforms`). -/
+theorem lint_history_is_pure_asis (ops : List SessOp) (ph : Phase) (s : Sess) (hc : Conforms ph ops) (hs : SessOk ph s) :
+    sessRun false s ops = pureRun s.defn ops := by
   induction ops generalizing ph s with
   | nil => rfl
   | cons op ops ih =>
@@ -455,24 +500,37 @@ theorem lint_history_is_pure (ops : List SessOp) (ph : Phase) (s : Sess) (hc : C
             simp only [lintPure]
             rw [ih .ready ⟨some E, some E⟩ hrest (Or.inr rfl)]
 
-/-- From the start (no engine registered yet) every protocol-conforming history is pure. -/
-theorem lint_history_from_start (ops : List SessOp) (hc : Conforms .ready ops) :
-    sessRun ⟨none, none⟩ ops = pureRun none ops :=
-  lint_history_is_pure ops .ready ⟨none, none⟩ hc (Or.inl rfl)
+def smallEnv : Env := { demoEnv with tags := [⟨"pH", none⟩] }
+
+def flowDoc : List XNode :=
+  [⟨⟨0, .watch, some ⟨some "Flow", ">", "3 L/h", some "3", some "L/h"⟩, "Watch", "", "Flow > 3 L/h", true, true⟩,
+    false, false, none, 0, .none⟩]
+
+/-- the engine re-registers while the aggregator still holds its data, an editor lints before the `UodInfoMsg`
+    arrives, the `UodInfoMsg` brings a definition without the tag `Flow`, the editor lints again -/
+def windowHistory : List SessOp :=
+  [.register true, .uodInfo demoEnv, .lint flowDoc, .register false, .lint flowDoc, .uodInfo smallEnv, .lint flowDoc]
+
+/-- **Witness for the code before the repair**: on `windowHistory` the last lint still uses the definition the lint in
+    the window cached — the reference to the removed tag `Flow` is not reported (`[]`), where the pure function (and
+    the repaired code) reports `UndefinedTag` on line 0. -/
+theorem lint_history_asis_stale_after_kept_reregistration :
+    sessRun false ⟨none, none⟩ windowHistory = [[], [], []] ∧
+    pureRun none windowHistory = [[], [], [.ofItem ⟨.condition, "UndefinedTag", 0, true, false⟩]] ∧
+    sessRun true ⟨none, none⟩ windowHistory = pureRun none windowHistory ∧
+    ¬ Conforms .ready windowHistory := by
+  refine ⟨by decide +kernel, by decide +kernel, by decide +kernel, ?_⟩
+  simp [windowHistory, Conforms]
 
 -- non-vacuity: the same document linted before and after the engine re-registers (once with fresh data, once with the
 -- data of the previous session kept) with a smaller tag set — the later lints flag the tag that is no longer defined
 example :
-    let small : Env := { demoEnv with tags := [⟨"pH", none⟩] }
-    let doc : List XNode := [⟨⟨0, .watch, some ⟨some "Flow", ">", "3 L/h", some "3", some "L/h"⟩, "Watch", "",
-      "Flow > 3 L/h", true, true⟩, false, false, none, 0, .none⟩]
-    let h : List SessOp := [.register true, .uodInfo demoEnv, .lint doc, .register true, .lint doc, .uodInfo small,
-      .lint doc, .register false, .uodInfo demoEnv, .lint doc, .register false, .uodInfo small, .lint doc]
-    Conforms .ready h ∧
-    sessRun ⟨none, none⟩ h =
-      [[], [.generic], [.ofItem ⟨.condition, "UndefinedTag", 0, true, false⟩], [],
+    let h : List SessOp := [.register true, .uodInfo demoEnv, .lint flowDoc, .register true, .lint flowDoc,
+      .uodInfo smallEnv, .lint flowDoc, .register false, .uodInfo demoEnv, .lint flowDoc, .register false,
+      .lint flowDoc, .uodInfo smallEnv, .lint flowDoc]
+    sessRun true ⟨none, none⟩ h =
+      [[], [.generic], [.ofItem ⟨.condition, "UndefinedTag", 0, true, false⟩], [], [],
        [.ofItem ⟨.condition, "UndefinedTag", 0, true, false⟩]] := by
-  refine ⟨by simp [Conforms], ?_⟩
   decide +kernel
 
 end OPM.C19
